@@ -387,6 +387,48 @@ pub fn entries_filtered(base: &MpcCase, corrupt: usize, all_idx: bool, salt: usi
             });
         }
     }
+    // a commitment round and its opening round(s) both reflected: the cheater's contribution would
+    // be a copy of the victim's, unless commitments are bound to the committing party
+    if n == 2 {
+        let mut sets: Vec<(Vec<(&str, Option<usize>)>, Vec<&str>)> = vec![];
+        for occ in [0usize, 1] {
+            sets.push((vec![("RNG comm", Some(occ)), ("RNG ver", Some(occ))], vec!["RNG comm", "RNG ver"]));
+        }
+        sets.push((vec![("fashare comm", Some(0)), ("fashare ver", Some(0)), ("fashare di_bi", Some(0))], ASHARE.to_vec()));
+        sets.push((vec![("fashare comm", Some(0)), ("fashare ver", Some(0))], ASHARE.to_vec()));
+        for (rush, round) in sets {
+            if !rush.iter().all(|(l, o)| tmpl.res.msgs.iter().any(|m| m.from == corrupt && m.label == *l && Some(m.label_occ) == *o)) {
+                continue;
+            }
+            out.push(Entry {
+                row: format!("rushing: {} reflected", rush.iter().map(|(l, _)| *l).collect::<Vec<_>>().join(" + ")),
+                attack: AttackCase { rush: rush.iter().map(|(l, o)| crate::adv::RushSpec { label: l.to_string(), occ: *o }).collect(), ..AttackCase::honest(base.clone(), corrupt) },
+                victims: honest.clone(),
+                anchor: Anchor::Tampered,
+                whitelist: wl(&round),
+                ot_group: false,
+            });
+        }
+    }
+    // wrong leaky AND triple (both bits of one haand pair flipped) hidden behind a reflected
+    // commitment round and a reflected opening round (n = 2: H_0 xor H_0 = 0 passes the check
+    // unless the commitment is bound to the committing party)
+    if n == 2 && tmpl.res.msgs.iter().any(|m| m.from == corrupt && m.label == "flaand comm") {
+        for occ in [None, Some(0)] {
+            out.push(Entry {
+                row: "rushing: wrong leaky AND triple, commitment and check value both reflected".into(),
+                attack: AttackCase {
+                    faults: vec![Fault { target: Target::Label { label: "haand".into(), occ, to: None }, mutation: MsgMut::Multi(vec![(vec![0, 0], TreeMut::FlipBit(0)), (vec![0, 1], TreeMut::FlipBit(0))]) }],
+                    rush: vec![crate::adv::RushSpec { label: "flaand comm".into(), occ: None }, crate::adv::RushSpec { label: "flaand hash".into(), occ: None }],
+                    ..AttackCase::honest(base.clone(), corrupt)
+                },
+                victims: honest.clone(),
+                anchor: Anchor::Tampered,
+                whitelist: wl(&LAAND),
+                ot_group: false,
+            });
+        }
+    }
     // aBit: the cheater uses other choice bits in the OT extension towards one party than the bit
     // string it runs the aBit test with (for n=3: other bits than towards the third party).
     // Index sets: single positions and pairs at the strides at which word/half-word oriented
